@@ -27,6 +27,7 @@ CAPS = {
 FORMAT_WEIGHTS = [('h5', 4), ('nc', 4), ('dcd', 4), ('xtc', 4), ('trr', 3), ('mdcrd', 2), ('xyz', 2), ('lammpstrj', 2),
                   ('gro', 2), ('pdb', 2), ('dtr', 2)]
 ALL_FORMATS = [f for f, _ in FORMAT_WEIGHTS]
+SQUEEZE_OK = ('h5', 'nc', 'dcd', 'mdcrd', 'xyz', 'lammpstrj')    # writers that accept one frame as a 2-d array (measured)
 XTOL = 5e-4
 
 
@@ -123,7 +124,10 @@ def generate(check, rng, tier, run_index):
                  ('ragged', 3 if (mode != 'faultfree' and rag and j > 0 and n_ragged < 2) else 0)]
         k = rng.weighted(kinds)
         if k == 'write':
-            ops.append({'op': 'write', 'k': rng.weighted([(1, 5), (2, 3), (3, 2), (rng.randint(4, 7), 1)])})
+            o = {'op': 'write', 'k': rng.weighted([(1, 5), (2, 3), (3, 2), (rng.randint(4, 7), 1)])}
+            if o['k'] == 1 and fmt in SQUEEZE_OK and rng.chance(0.4):
+                o['squeeze'] = True       # a single frame handed over as 2-d coordinates / scalar time ("dimension deficient by one")
+            ops.append(o)
         elif k == 'ragged':
             n_ragged += 1
             ops.append({'op': 'ragged', 'kind': rng.choice(rag), 'k': rng.randint(1, 2), 'delta': rng.choice([-1, 1])})
@@ -426,6 +430,9 @@ def _execute(check, case, workdir):
                 k = op['k']
                 ids = list(range(cursor, cursor + k))
                 x, t_, l_, a_ = _chunk(src, ids, with_cell, with_time)
+                if op.get('squeeze') and k == 1 and fmt in SQUEEZE_OK:
+                    x, t_, l_, a_ = x[0], (None if t_ is None else float(t_[0])), (None if l_ is None else l_[0]), (None if a_ is None else a_[0])
+                    res.probe('single_frame_written_dimension_deficient')
                 try:
                     w.write(x, t_, l_, a_)
                 except Exception as e:
@@ -601,6 +608,8 @@ def _child_history(case, workdir):
         if op['op'] == 'write':
             ids = list(range(cursor, cursor + op['k']))
             x, t_, l_, a_ = _chunk(src, ids, with_cell, with_time)
+            if op.get('squeeze') and op['k'] == 1 and fmt in SQUEEZE_OK:
+                x, t_, l_, a_ = x[0], (None if t_ is None else float(t_[0])), (None if l_ is None else l_[0]), (None if a_ is None else a_[0])
             w.write(x, t_, l_, a_)
             cursor += op['k']
             n_acc += op['k']
